@@ -102,12 +102,9 @@ def lastOffOr (items : List Item) (dflt : Int) : Int :=
   | some it => it.off + 1
   | none => dflt
 
-/-- Index version a (re)built index file gets: `index.Write` appends to an existing
-V2 header-only file, otherwise writes the requested version's header. -/
-def rebuiltIdxVer (existing : Option IdxFile) (want : Ver) : Ver :=
-  match existing with
-  | some ⟨.v2, _⟩ => .v2
-  | _ => want
+/-- Index version a (re)built index file gets: `index.Write` writes a fresh file (temp file
+renamed in) with the requested version's header, whatever was there before. -/
+def rebuiltIdxVer (_existing : Option IdxFile) (want : Ver) : Ver := want
 
 def needsReindex (s : Seg) : Bool :=
   match s.idxf with
